@@ -59,6 +59,10 @@ func AddFiltersToURL(baseURL string, protocolFilter, addrFilter []string) string
 // - filterAddrs: A slice of strings representing the address filter criteria.
 // - filterProtocols: A slice of strings representing the protocol filter criteria.
 func ApplyFiltersToIter(recordsIter iter.ResultIter[types.Record], filterAddrs, filterProtocols []string) iter.ResultIter[types.Record] {
+	// IPIP-484 filtering is case-insensitive. ParseFilter lower-cases query
+	// parameters, but other callers (the client) pass user-supplied terms.
+	filterAddrs, filterProtocols = lowerAll(filterAddrs), lowerAll(filterProtocols)
+
 	mappedIter := iter.Map(recordsIter, func(v iter.Result[types.Record]) iter.Result[types.Record] {
 		if v.Err != nil || v.Val == nil {
 			return v
@@ -105,6 +109,15 @@ func ApplyFiltersToIter(recordsIter iter.ResultIter[types.Record], filterAddrs, 
 	})
 
 	return filteredIter
+}
+
+// lowerAll returns a lower-cased copy of terms.
+func lowerAll(terms []string) []string {
+	out := make([]string, len(terms))
+	for i, t := range terms {
+		out[i] = strings.ToLower(t)
+	}
+	return out
 }
 
 func ApplyFiltersToPeerRecordIter(peerRecordIter iter.ResultIter[*types.PeerRecord], filterAddrs, filterProtocols []string) iter.ResultIter[*types.PeerRecord] {
